@@ -373,8 +373,13 @@ def _float_dist(rng):
     if r < 0.55:
         c = rng.randint(0, 300)
         return unit, "const", lambda: c
-    if r < 0.85:
+    if r < 0.75:
         return unit, "small", lambda: rng.randint(0, 64)
+    if r < 0.88:
+        # weights that differ only far below single precision (exact in float64): a solver fed a narrower float
+        # type sees ties and returns a non-minimal assignment
+        base = 2 ** rng.choice([26, 30, 34])
+        return unit, "near-equal", lambda: base + rng.randint(0, 3)
     return unit, "wide", lambda: rng.randint(0, 2 ** 40)
 
 
